@@ -34,6 +34,7 @@ func runC02(p *eng.Prog, r *eng.Report, tier string) {
 	jidEqualRule(c, "C02.11")
 	jidAppendsFresh(c, "C02.12")
 	c02TeeWrapsWhatItWasGiven(c, "C02.13")
+	negotiatorMaskFromFeatures(c, "C02.19")
 	firstParam := ""
 	nf, call := negotiateSite(c, "C01.1")
 	if nf != nil {
@@ -698,4 +699,58 @@ func c12HeaderKeepsAbsent(c *cx, id string) {
 		c.domAny(id, f, w.Stmt, "field "+strings.TrimPrefix(cls, "stream.Info.")+" stored under its attribute's arm", []string{"eq(rangeval(p0.Attr).Name,*)", "eq(*,rangeval(p0.Attr).Name)", "eq(rangeval(p0.Attr).Name.Local,*)"})
 	}
 	c.r.Floor(id, "field stores in FromStartElement", n, 3)
+}
+
+// negotiatorMaskFromFeatures (C02.19 / C01.23): the default negotiator decides
+// nothing about the session's state by itself: the mask it returns - Ready
+// included - is the mask of negotiateFeatures for this step or the zero mask
+// of an error return. Every return of the negotiator closure returns the one
+// mask variable, whose only definitions are its zero value and the first
+// result of negotiateFeatures. A `return Ready, …` of the closure's own (for a
+// peer that announces an old version, a header without features, a
+// configuration flag) reports a session established in clear text without any
+// feature having been looked at: all it takes is a peer, or a man in the
+// middle, that produces the trigger.
+func negotiatorMaskFromFeatures(c *cx, id string) {
+	nf := c.fn(id, "", "negotiator")
+	if nf == nil {
+		return
+	}
+	f := c.lit(id, nf, 1)
+	if f == nil {
+		return
+	}
+	g := f.Graph()
+	n := 0
+	for _, rs := range g.Returns {
+		n++
+		var v *types.Var
+		if len(rs.Results) == 0 {
+			v = f.Sig().Results().At(0)
+		} else {
+			v = g.LocalVar(rs.Results[0])
+		}
+		if v == nil {
+			val := ""
+			if len(rs.Results) > 0 {
+				val = f.Norm(rs.Results[0], nil)
+			}
+			c.r.Check(id, f, "mask returned by the negotiator", "P: the returned mask is the mask variable (negotiateFeatures' result or zero)", rs.Pos(), val == "0", "the negotiator returns "+val+" by itself")
+			continue
+		}
+		bad := ""
+		for _, d := range g.DefsOf(v) {
+			switch {
+			case d.Kind == eng.DefZero || d.Kind == eng.DefParam:
+			case d.Kind == eng.DefTuple && d.Index == 0 && d.RHS != nil:
+				if cl, ok := ast.Unparen(d.RHS).(*ast.CallExpr); !ok || f.CalleeID(cl) != "xmpp.negotiateFeatures" {
+					bad = "defined by " + f.Prog.NodeStr(d.Node)
+				}
+			default:
+				bad = "defined by " + f.Prog.NodeStr(d.Node)
+			}
+		}
+		c.r.Check(id, f, "mask returned by the negotiator", "P: the returned mask is the mask variable (negotiateFeatures' result or zero)", rs.Pos(), bad == "", "the mask is "+bad+": the negotiator reports state bits no feature produced")
+	}
+	c.r.Floor(id, "returns of the negotiator closure", n, 5)
 }
